@@ -114,6 +114,7 @@ def materialise(p: dict, root: Path, rnd: random.Random, outside: Path | None = 
     """Create the tree.  Returns {'faults': [abs paths]}."""
     root.mkdir(parents=True, exist_ok=True)
     faults = []
+    salt = rnd.random()     # files with identical abstract content get identical bytes within one project
     # directories that are symlinks: create target outside, link inside
     made_links = set()
     for f in p["files"]:
@@ -148,7 +149,8 @@ def materialise(p: dict, root: Path, rnd: random.Random, outside: Path | None = 
             path.write_bytes(b"\x89BIN\x00\x01\x02\xff\xfe\nSPDX-License-Identifier: WTFPL\n"
                              b"SPDX-FileCopyrightText: 1998 Inside Binary\n\x00\x00" + os.urandom(16))
         else:
-            path.write_text(header_text(f["own"], rnd) + body)
+            key = json.dumps([salt, f["own"], body], sort_keys=True)
+            path.write_text(header_text(f["own"], random.Random(key)) + body)
         d = f.get("dot")
         if d and d.get("present"):
             lic = Path(str(path) + ".license")
